@@ -25,8 +25,9 @@ def stream_values(ctx):
                       'non-trivial = >= 4 nodes and decided')
     rng = ctx.sub_rng('values')
     n_e, n_p = ctx.n(260, 6000), ctx.n(140, 3000)
-    cases = [gen_case(rng, variables=True, max_depth=rng.choice([3, 4, 5])) for _ in range(n_e)]
-    pcases = [gen_case(rng, variables=False, max_depth=rng.choice([2, 3, 4, 5])) for _ in range(n_p)]
+    corpus = load_corpus()
+    cases = [c for c in corpus if c['rows']] + [gen_case(rng, variables=True, max_depth=rng.choice([3, 4, 5])) for _ in range(n_e)]
+    pcases = [c for c in corpus if not c['rows']] + [gen_case(rng, variables=False, max_depth=rng.choice([2, 3, 4, 5])) for _ in range(n_p)]
     res = ctx.impl_cases('c01_values.py', cases, {'python': False})
     pres = ctx.impl_cases('c01_values.py', pcases, {'python': True})
 
@@ -91,11 +92,11 @@ def stream_values(ctx):
         st.record(case, nontrivial=tree_size(c['tree']) >= 4)
         if v == 'differ':
             path = 'compiled engine' if kind == 'e' else 'pure-Python evaluator'
-            st.disagree(case, info, obs)
-            ctx.violation(f'C01/value/{"engine" if kind == "e" else "python"}/{root_kind(c["tree"])}',
-                          f'the {path} returns a number outside the enclosure of the mathematical value',
-                          {'tree': c['tree'], 'betas': c['betas'], 'row': row}, info, obs,
-                          how='build the tree with lib/impl/bio_build.py and evaluate get_value_c / get_value')
+            if ctx.violation(vkey(c, f'C01/value/{"engine" if kind == "e" else "python"}/{root_kind(c["tree"])}'),
+                             c.get('what') or f'the {path} returns a number outside the enclosure of the mathematical value',
+                             {'tree': c['tree'], 'betas': c['betas'], 'row': row}, info, obs,
+                             how='build the tree with lib/impl/bio_build.py and evaluate get_value_c / get_value'):
+                st.disagree(case, info, obs)
     for key, (c, exc, oks) in anyrow.items():
         st_e.record({'tree': strip_sids(c['tree']), 'error': exc}, nontrivial=True)
         if not any(oks):
@@ -110,6 +111,20 @@ def stream_values(ctx):
     for st in (st_e, st_p):
         if st.disagreements:
             ctx.stream_broken(st.name, f'{len(st.disagreements)} disagreements; first: {json.dumps(st.disagreements[0], default=str)[:600]}')
+
+
+def load_corpus():
+    import glob
+    out = []
+    for f in sorted(glob.glob('/verif/corpus/C01/*.json')):
+        c = json.load(open(f))
+        c['corpus'] = f
+        out.append(c)
+    return out
+
+
+def vkey(c, default):
+    return c.get('key') or default
 
 
 def root_kind(t):
@@ -127,6 +142,20 @@ def stream_sig(ctx):
     run_sig_streams(ctx, st_sig, st_ids, ctx.n(150, 3000), ctx.n(20, 300))
 
 
+def stream_stale(ctx):
+    st = ctx.stream('stale_exception', 'history of two evaluations in ONE process: a formula outside the domain (absent key), then 1+2; '
+                    'non-trivial = the first evaluation failed')
+    r = ctx.impl('c01_stale.py', {})
+    failed_first = r.get('second') != 'no error'
+    st.record({'history': ['Elem({1: 1}, 7)', '1 + 2'], 'observed': r}, nontrivial=failed_first)
+    st.record({'history': ['log(-1)', '1 + 2'], 'observed': r.get('first')}, nontrivial=True)
+    if failed_first and r.get('after') != 3.0:
+        ctx.violation('C01/known/engine-stale-exception',
+                      'after one failing evaluation, a valid formula evaluated in the same process fails',
+                      {'history': ['Elem({1: Numeric(1)}, Numeric(7)).get_value_c()', '(Numeric(1) + Numeric(2)).get_value_c()']},
+                      3.0, r.get('after_exc', r.get('after')))
+
+
 def run(ctx):
     ctx.assumptions += ASSUME
     ctx.trusted += ['engine semantics modelled (rocq/Model/EvalX.v), not verified',
@@ -134,6 +163,7 @@ def run(ctx):
     ctx.build()
     stream_values(ctx)
     stream_sig(ctx)
+    stream_stale(ctx)
 
 
 def replay(ctx, path):
